@@ -22,6 +22,17 @@ TEXTS = {
              "over the walk). The same clauses are evaluated as an oracle on the Walked the Go code returns, and model and Go are compared "
              "stride by stride.",
         note=ENGINE_NOTE),
+    "C06": dict(
+        text="Proved about an ownership-tracked re-statement of Spec.Step and of Spec.Walk's loop body (Model/Own.v: every top-level "
+             "bindings map tagged Caller or Fresh, every in-place write of the Go code logged): erasing the tags gives exactly the "
+             "model step/walk_stride (C06_tracked_*_is_the_model); for every action/guard behaviour - failing, rejecting, error with or "
+             "without a partial result, native actions handing back the map they were given - no logged write changes the contents of "
+             "the caller's map and every state of the returned stride holds a fresh map (C06_*_leaves_caller_intact). On the Go side "
+             "every Step and Walk is run twice with deep snapshots of state, messages, branch patterns, control and props, map-identity "
+             "probes between the input and every returned State.Bs, and result comparison.",
+        note=ENGINE_NOTE + " Partial: the provenance tags are assigned by hand from the Copy()/Extend() calls in core/step.go and "
+             "core/actions.go; Go aliasing itself is observed by the harness probes (which test that assignment), not proved. Sharing "
+             "below the top-level map is outside the property."),
     "C07": dict(
         text="Proved for the model: every step error inside a walk becomes a transition to the error node whose bindings carry the error, "
              "the node and the bindings at that point; an action failure is routed by the error settings; an action node that follows no "
